@@ -177,12 +177,15 @@ def variants_for(prop: str):
         out.append(("transform", t, prop, t, [], None))
     # behaviour-preserving clean-up patches delivered by independent agents (DESIGN 9.1): every check stays silent on every one
     import glob
+    if os.environ.get("AUDIT_HAND_ONLY"):        # developer shortcut: hand-written variants only (never used by the registered commands)
+        return [v for v in out if v[0] in ("mutant", "neutral")]
     for pf in sorted(glob.glob(os.path.join(HERE, "neutral_patches", "*.diff"))):
         out.append(("patch", "patch:" + os.path.basename(pf)[:-5], prop, pf, [], None))
     return out
 
 
 def run_audit(prop: str, root: str = "/repo", jobs: int = 16, verbose=False) -> dict:
+    jobs = int(os.environ.get("AUDIT_JOBS", jobs))
     vs = [(k, i, p, e, x, root) for (k, i, p, e, x, _) in variants_for(prop)]
     res = []
     if vs:
